@@ -417,6 +417,24 @@ func c13refineDepth(cur iset, cond ssa.Value, truth bool, alias map[ssa.Value]bo
 		}
 		return out
 	}
+	// `code/100 == 3`: the hundreds digit spelled as a division (x/d == q  <=>  q*d <= x <= q*d+d-1 for q >= 1)
+	if bo, ok := cond.(*ssa.BinOp); ok && (bo.Op == token.EQL || bo.Op == token.NEQ) {
+		quo, q := bo.X, bo.Y
+		if _, isK := constInt(quo); isK {
+			quo, q = bo.Y, bo.X
+		}
+		if dv, isQ := quo.(*ssa.BinOp); isQ && dv.Op == token.QUO && alias[dv.X] {
+			d, okD := constInt(dv.Y)
+			n, okN := constInt(q)
+			if okD && okN && d >= 1 && n >= 1 && n < 1<<20 && d < 1<<20 {
+				in := iset{{n * d, n*d + d - 1}}
+				if (bo.Op == token.EQL) == truth {
+					return c13isect(cur, in)
+				}
+				return c13minus(cur, in)
+			}
+		}
+	}
 	return refine(cur, cond, truth, alias)
 }
 
